@@ -7,9 +7,9 @@
    Go scheduler runs the 1 s watchdog on time, that closing the control connection releases
    listeners within a bounded real time, that a login attempt itself terminates in bounded time. *)
 From Coq Require Import ZArith List Bool Lia.
-From FRP Require Import Model.Heartbeat Model.Backoff Model.Relogin
+From FRP Require Import Model.Heartbeat Model.Backoff Model.Relogin Model.CliDispatch
   Proofs.HeartbeatProofs Proofs.BackoffProofs Proofs.ReloginProofs
-  gen.GenBackoffOpts Proofs.GenBackoffProofs.
+  gen.GenBackoffOpts Proofs.GenBackoffProofs Proofs.GenCliDispatch Proofs.CliDispatchProofs.
 Import ListNotations.
 Open Scope Z_scope.
 
@@ -157,6 +157,34 @@ Theorem C14_watchdog_init_and_test_in_source :
   gen_cli_watchdog_is_plain_timeout_test = true /\ gen_srv_watchdog_is_plain_timeout_test = true.
 Proof. repeat split; reflexivity. Qed.
 Print Assumptions C14_watchdog_init_and_test_in_source.
+
+(* A healthy server is not declared dead because the client is busy: the Pongs the watchdog sees are
+   stamped when their handler runs inside the dispatcher's single read loop (Model/CliDispatch.v).  With
+   today's registration table (t14: gen_cli_async) every message is handled the instant it arrives, however
+   long the dials of work connections hang (ca_block of ReqWorkConn is unconstrained, e.g. dialServerTimeout
+   while new connections to frps are black-holed), provided the handlers that do run in the read loop return
+   at once (t14: gen_cli_sync_handlers_nonblocking).  So C14_client_same_rule_live applies to the ARRIVAL
+   instants of the Pongs. *)
+Theorem C14_blocked_dials_do_not_starve_pongs : forall l free,
+  cd_sorted free l ->
+  (forall a, In a l -> ca_msg a <> MReqWorkConn -> ca_block a = 0) ->
+  cd_process gen_cli_async free l = map (fun a => (ca_at a, ca_msg a)) l.
+Proof. exact cd_pongs_stamped_on_arrival. Qed.
+Print Assumptions C14_blocked_dials_do_not_starve_pongs.
+
+Theorem C14_client_handlers_in_source :
+  gen_cli_async_reqworkconn = true /\ gen_cli_sync_handlers_nonblocking = true.
+Proof. split; reflexivity. Qed.
+Print Assumptions C14_client_handlers_in_source.
+
+(* the model is sensitive to it: with ReqWorkConn handled in the read loop, three dials hanging 2.5 s each
+   make the client close a server that answers every Ping (interval 1 s, timeout 3 s) at the 4 s check;
+   with today's table the same arrivals leave the session open *)
+Theorem C14_sync_dials_would_starve_pongs :
+  hb_cli_close_time 1 3 (hb_cli_init 0) (cd_history (fun _ => false) cd_demo_arrivals 9000) = Some 4000 /\
+  hb_cli_close_time 1 3 (hb_cli_init 0) (cd_history gen_cli_async cd_demo_arrivals 9000) = None.
+Proof. exact cd_demo_sync_starves_async_does_not. Qed.
+Print Assumptions C14_sync_dials_would_starve_pongs.
 
 Theorem C14_pong_error_closes_session : forall I T s e1 e2,
   hc_closed (hb_cli_run I T s (e1 ++ CPongErr :: e2)) = true.
